@@ -20,6 +20,14 @@ Inductive access : Type :=
 Definition access_ok (a : access) : bool :=
   match a with Other _ => false | _ => true end.
 
+(* how a random stream is used (determinism of repeated calls) *)
+Inductive rand_use : Type :=
+| SeededGlobal            (* np.random.<draw> directly after np.random.seed(<literal>) *)
+| SeededLocal             (* RandomState() seeded by the next statement from a literal or from the data *)
+| Unseeded (src : string).
+Definition rand_ok (u : rand_use) : bool :=
+  match u with Unseeded _ => false | _ => true end.
+
 (* ---------------------------------------------------------------- language *)
 Inductive reg : Type := RG | RLo | RHi | RL.
   (* global_threshold, threshold_range_min, threshold_range_max, local_threshold *)
